@@ -63,7 +63,7 @@ package keeper
 //@ ensures error_changes_nothing: err != NoErr ==> raw == old(raw) && bal == old(bal)
 
 //@ func (Keeper).AddServiceBinding
-//@ props C03 C05 C14 C15
+//@ props C03 C05 C14 C15 C07
 //@ modifies raw, bal
 //@ preserves wf: WF(raw)
 //@ preserves [C03] deposits_in_custody: depInv(raw, bal)
@@ -80,7 +80,7 @@ package keeper
 //@ ensures error_changes_nothing: err != NoErr ==> raw == old(raw) && bal == old(bal)
 
 //@ func (Keeper).UpdateServiceBinding
-//@ props C03 C05 C14 C15
+//@ props C03 C05 C14 C15 C07
 //@ modifies raw, bal
 //@ preserves wf: WF(raw)
 //@ requires signer_ordinary: ordinary(owner)
@@ -560,3 +560,32 @@ package keeper
 //@ func queryParams
 //@ props C17
 //@ ensures [C17] same_view_as_grpc: err == NoErr ==> result0 == jsonEnc_Params(params)
+
+// ---------------------------------------------------------------- zero-height genesis preparation (C19)
+//@ func (Keeper).RefundServiceFees
+//@ props C19
+//@ modifies bal
+//@ loop 0 invariant pos_in_range: 0 <= iterator_pos && iterator_pos <= itCount(iterator_snap, iterator_pfx)
+//@ loop 0 invariant snapshot: iterator_snap == raw && iterator_pfx == PAllAct
+//@ loop 0 invariant refunded_so_far: bal == refundIt(old(bal), iterator_snap, iterator_pfx, iterator_pos)
+//@ ensures [C19] every_pending_fee_back_to_its_consumer: err == NoErr ==> bal == refundIt(old(bal), raw, PAllAct, itCount(raw, PAllAct))
+
+//@ func (Keeper).RefundEarnedFees
+//@ props C19 C18
+//@ modifies bal
+//@ requires records_match_their_keys: wfEarned(raw)
+//@ loop 0 invariant pos_in_range: 0 <= iterator_pos && iterator_pos <= itCount(iterator_snap, iterator_pfx)
+//@ loop 0 invariant snapshot: iterator_snap == raw && iterator_pfx == PAllEarned
+//@ loop 0 invariant refunded_so_far: bal == refundEarnedIt(old(bal), iterator_snap, iterator_pfx, iterator_pos)
+//@ ensures [C19] every_earning_back_to_the_provider_of_its_key: err == NoErr ==> bal == refundEarnedIt(old(bal), raw, PAllEarned, itCount(raw, PAllEarned))
+
+//@ func (Keeper).ResetRequestContextsStateAndBatch
+//@ props C19
+//@ modifies raw
+//@ loop IterateRequestContexts.0 invariant pos_in_range: 0 <= iterator_pos && iterator_pos <= itCount(iterator_snap, iterator_pfx)
+//@ loop IterateRequestContexts.0 invariant snapshot: iterator_snap == old(raw) && iterator_pfx == PAllCtx
+//@ loop IterateRequestContexts.0 invariant reset_so_far: forall k Key :: {raw[k]} raw[k] == ((is_KCtx(k) && iterator_snap[k] != bnil && itIdx(iterator_snap, iterator_pfx, k) < iterator_pos)
+//@      ? enc_RequestContext(dec_RequestContext(iterator_snap[k])[State := PAUSED][BatchState := BATCHCOMPLETED][BatchRequestCount := 0][BatchResponseCount := 0]) : iterator_snap[k])
+//@ ensures [C19] every_context_paused_with_no_batch_in_flight: forall k Key :: {raw[k]} raw[k] == ((is_KCtx(k) && old(raw)[k] != bnil)
+//@      ? enc_RequestContext(dec_RequestContext(old(raw)[k])[State := PAUSED][BatchState := BATCHCOMPLETED][BatchRequestCount := 0][BatchResponseCount := 0]) : old(raw)[k])
+//@ ensures err == NoErr
